@@ -463,10 +463,11 @@ func genCases(r *hlib.Run) []*kase {
 	// The Lean model costs ~20 k instructions per payload byte (2 encodes + 2 decodes): it gets every
 	// payload up to 4 KiB and the larger ones while the budget lasts (fixed shapes come first); the
 	// implementation-side oracles run on every payload.
-	modelBudget := 2_000_000
+	modelBudget := 3_000_000
 	if T {
 		modelBudget = 24_000_000
 	}
+	nAdd := 0
 	add := func(name string, data []byte, external, chunked bool) {
 		m := len(data) <= 4096
 		if !m && modelBudget >= len(data) {
@@ -476,7 +477,17 @@ func genCases(r *hlib.Run) []*kase {
 		if !m {
 			r.Count("model-skipped(payload too large for the model budget)")
 		}
-		ks = append(ks, &kase{kind: "rt", name: name, data: data, model: m, external: external, chunked: chunked})
+		k := &kase{kind: "rt", name: name, data: data, model: m, external: external, chunked: chunked}
+		// every third payload up to 2 KiB is also encoded / decoded with a non-empty dst to append to
+		// (1..9 bytes, so that len(dst) is not a multiple of 4: the XZ padding is relative to dstLen0)
+		nAdd++
+		if len(data) <= 2048 && nAdd%3 == 0 {
+			k.pre = rng.Bytes(1 + rng.Intn(9))
+		}
+		ks = append(ks, k)
+	}
+	addLight := func(name string, data []byte) {
+		ks = append(ks, &kase{kind: "rt", name: name, data: data, light: true})
 	}
 
 	// fixed shapes
@@ -561,6 +572,9 @@ func genCases(r *hlib.Run) []*kase {
 			add("margin", marginPayload(rng, n, want), true, false)
 		}
 	}
+
+	// round 2: stream ends inside a pending 0xFF run; uvarint thresholds of the XZ index
+	genRound2(r, add, addLight)
 
 	// carry chains
 	best := chainStats{}
